@@ -50,7 +50,7 @@
                                    is not complete is the open finding C09-overlap-keyed-by-condition)
   Four behaviours of the rule code that the previous proof pass had to exclude by hypotheses (they were
   hard-wired in the model) are now defects with toggles — on in the pinned model, off in the repaired
-  one — each replayed on the real code (corpus/C09/rule_defects.case) and with a witness theorem:
+  one — each replayed on the real code (corpus/C09/main-rule_defects.case) and with a witness theorem:
     overlapUntypedInlineKeyedNone  a condition-less inline fragment is filed under `None`: a VALID document
                                    is rejected (`c09_witness_overlap_untyped_inline`, finding
                                    C09-overlap-untyped-inline)
@@ -71,6 +71,15 @@
   key) — the repaired pipeline rejects exactly the requests the reference validator calls invalid: all 22
   rule structs, all 28 reference rules, variables / condition-less inline fragments / `null` defaults /
   arguments at `__typename` and at unknown fields included.
+
+  DYNAMIC SCHEMAS (the quantifier says "against static and dynamic schemas"): `c09_corrected_wf` is stated
+  over an abstract registry description, so it covers every registry satisfying its hypotheses;
+  `c09_dynamic_schema_wf` shows the registry of the harness schema built with `async_graphql::dynamic`
+  (Model/ValidateDynSchema.lean, generated from the dump of the real registry; the judge compares every
+  case of stream `dynamic` with it) satisfies the registry hypotheses, `c09_dynamic_corrected` is the
+  equivalence instantiated there (document hypotheses only), `c09_dynamic_example` a valid and an invalid
+  document using what is particular to that flavour (a custom scalar registered without validator,
+  directives the dynamic API cannot register).
 
   The statements that were OPEN are FALSE of the model as stated and are refuted by witnesses
   (`c09_refuted`, `c09_rule_equivalences_refuted`, `c09_corrected_refuted`);
@@ -154,11 +163,15 @@
   OBLIGATION c09_rule_is_valid_input_literal
   OBLIGATION c09_literals_agree
   OBLIGATION c09_wf_of_schema
+  OBLIGATION c09_dynamic_schema_wf
+  OBLIGATION c09_dynamic_corrected
+  OBLIGATION c09_dynamic_example
 -/
 import AGV.Model.Validate
 import AGV.Spec.Validate
 import AGV.Gen.Rules
 import AGV.Lemmas.ValidateLiterals
+import AGV.Model.ValidateDynSchema
 
 namespace AGV.Props.C09
 open AGV.Core AGV.Model.Validate
@@ -1470,4 +1483,74 @@ example : LitSchema S0F ∧ ArgKeysOk S0F dWF ∧ DefaultKeysOk dWF ∧ ArgKeysO
 
 end literals
 
+-- ------------------------------------------------------------------ the dynamic flavour
+
+section dynamic
+open AGV.Lemmas.ValidateRules AGV.Lemmas.ValidateWalk AGV.Lemmas.ValidateGraph AGV.Lemmas.ValidateSpecNodes
+open AGV.Lemmas.ValidateLiterals AGV.Lemmas.ValidateOverlap
+open AGV.Spec.Validate
+open AGV.Model.ValidateDynSchema
+
+/-- THE DYNAMIC REGISTRY SATISFIES THE HYPOTHESES.  `dynSchema` (Model/ValidateDynSchema.lean) is the
+    registry dump of the harness schema built with `async_graphql::dynamic` — the judge compares the
+    dump every case of stream `dynamic` carries with it — and it is a well-formed registry whose
+    abstract types are inhabited, with the five built-in scalars and both input objects defined: the
+    registry conditions of `c09_corrected_wf` / `c09_wf_of_schema`, so the theorem is not vacuous
+    for the dynamic flavour. -/
+theorem c09_dynamic_schema_wf : SchemaWF dynSchema ∧ AbstractInhabited dynSchema ∧ LitSchema dynSchema :=
+  ⟨{ stringNotComposite := by decide
+     noTypenameField := by decide
+     fieldsOutput := by decide
+     rootsComposite := by intro t r h; cases t <;> simp [rootOf, dynSchema] at h <;> subst h <;> decide },
+   by unfold AbstractInhabited; decide,
+   litSchema_of_check dynSchema (by decide)⟩
+
+/-- the corrected statement INSTANTIATED at the dynamic registry: for every document without a
+    sub-selection below `__typename` whose object literals do not repeat a key, all variables and
+    operation names, the repaired pipeline rejects exactly the requests the reference validator
+    calls invalid — no hypothesis about the registry is left. -/
+theorem c09_dynamic_corrected (d : Doc) (vars : List (String × GValue)) (o : Option String)
+    (hD : docOK d = true) (hAk : ArgKeysOk dynSchema d) (hDk : DefaultKeysOk d) :
+    (checkRules dynSchema {} d vars o).isRejected = true ↔ ¬ Valid {} dynSchema d vars o :=
+  c09_corrected_wf dynSchema d vars o
+    (c09_wf_of_schema dynSchema d c09_dynamic_schema_wf.1 c09_dynamic_schema_wf.2.1 c09_dynamic_schema_wf.2.2 hD hAk hDk)
+
+/-- `query($c: Color!, $b: Blob!) { blob(b: {k: [1, "x", RED]}, bs: [3000000000, $b]) color(c: $c)
+       pet { ... on Dog { barks } ... { __typename } } node(id: 1) { id @skip(if: true) } }`
+    — every literal is a `Blob` (custom scalar registered WITHOUT validator) -/
+def dDyn : Doc :=
+  { ops := [{ ty := .query, name := none,
+              vars := [{ name := "c", ty := .nonNull (.named "Color"), default := none },
+                       { name := "b", ty := .nonNull (.named "Blob"), default := none }], dirs := [],
+              sels := [fld "blob" [("b", .obj [("k", .list [.int 1, .str "x", .enum "RED"])]), ("bs", .list [.int 3000000000, .var "b"])],
+                       fld "color" [("c", .var "c")],
+                       fld "pet" [] [.inline (some "Dog") [] [fld "barks"] p0, .inline none [] [fld "__typename"] p0],
+                       fld "node" [("id", .int 1)] [fld "id" [] [] none [{ name := "skip", args := [("if", .bool true)] }]]] }],
+    frags := [] }
+def dDynVars : List (String × GValue) := [("c", .str "RED"), ("b", .obj [("any", .bool true)])]
+
+/-- `{ blob(bs: [1, null]) n(x: "1") dog { id @concat(prefix: "p") } nope @ifdef }` — `null` is no
+    `Blob!`; `concat` and `ifdef` are directives the dynamic API cannot register: unknown here -/
+def dDynBad : Doc :=
+  { ops := [{ ty := .query, name := none, vars := [], dirs := [],
+              sels := [fld "blob" [("bs", .list [.int 1, .null])], fld "n" [("x", .str "1")],
+                       fld "dog" [] [fld "id" [] [] none [{ name := "concat", args := [("prefix", .str "p")] }]],
+                       fld "nope" [] [] none [{ name := "ifdef", args := [] }]] }],
+    frags := [] }
+
+/-- the document hypotheses of `c09_dynamic_corrected` hold of both examples, and both sides of the
+    equivalence evaluate as they should: accepted and valid; rejected and invalid -/
+theorem c09_dynamic_example :
+    (∀ d, d = dDyn ∨ d = dDynBad → docOK d = true ∧ ArgKeysOk dynSchema d ∧ DefaultKeysOk d)
+    ∧ (checkRules dynSchema {} dDyn dDynVars none).isRejected = false
+    ∧ Spec.Validate.violations {} dynSchema dDyn dDynVars none = []
+    ∧ (checkRules dynSchema {} dDynBad [] none).isRejected = true
+    ∧ Spec.Validate.violations {} dynSchema dDynBad [] none =
+        ["5.3.1 Field Selections", "5.6 Values Of Correct Type", "5.7.1 Directives Are Defined"] := by
+  refine ⟨?_, by decide +kernel, by decide +kernel, by decide +kernel, by decide +kernel⟩
+  rintro d (rfl | rfl)
+  · exact ⟨by decide, by decide +kernel, by decide⟩
+  · exact ⟨by decide, by decide +kernel, by decide⟩
+
+end dynamic
 end AGV.Props.C09
